@@ -63,6 +63,20 @@ func verifShape(i int) (root *verifSrc, ps3 bool) {
 	case 4: // thorough: deeper nesting, mixed order
 		return verifDir("d", verifDir("x", verifDir("y", verifFile("deep.dat", false)), verifFile("mid", false)), verifFile("top.iso", true), verifDir("z")), false
 	}
+	if i == 7 { // a multi-extent file (4..8 GiB: 2 or 3 extent records of one identifier) among 14 other entries
+		big := verifFile("big.bin", true)
+		verifrt.Assume(big.size >= 1<<32) // 2 to 4 extents
+		verifrt.Assume(big.size < 3<<32)
+		// listed in no particular order (the file system's order is not alphabetical), the big file in the middle
+		var es []*verifSrc
+		for k := 0; k < 13; k++ {
+			if k == 6 {
+				es = append(es, &verifSrc{name: "adir", dir: true, mtime: 5}, big)
+			}
+			es = append(es, &verifSrc{name: "s" + string(rune('a'+(k*5)%13)), size: 1, mtime: 7})
+		}
+		return verifDir("d", es...), false
+	}
 	if i == 6 { // thorough: 100 directories - the Joliet path table needs more sectors than the primary one
 		var ds []*verifSrc
 		for k := 0; k < 100; k++ {
@@ -476,7 +490,7 @@ func verifValidate(v *VirtualISO, root *verifSrc, ps3 bool) {
 }
 
 func verifShapeChoice() int {
-	return verifrt.Choice("shape", verifrt.Bound("C07.shapes", 7, 7))
+	return verifrt.Choice("shape", verifrt.Bound("C07.shapes", 8, 8))
 }
 
 // C07 + C08 on one construction
